@@ -46,6 +46,8 @@ NODE2 == Struct(<<Fld(n_a, "elem", List(STR)), Fld(n_b, "elem", List(STR))>>)
 NEST == Struct(<<Fld(n_a, "elem", List(STR))>>)
 SELFNEST == Struct(<<Fld(n_b, "elem", List(STR))>>)      \* an item whose own children carry the item's name
 
+F32T == Struct(<<Fld(n_a, "elem", List(STR)), Fld(n_b, "elem", List(STR)), Fld(<<111>>, "elem", Opt(ITEM))>>)
+
 TypeOf(name) ==
     CASE name = "F01" -> Struct(<<Fld(n_one, "attr", STR), Fld(n_two, "attr", NUM)>>)
       [] name = "F02" -> Struct(<<Fld(n_one, "elem", STR), Fld(n_two, "elem", NUM)>>)
@@ -72,6 +74,8 @@ TypeOf(name) ==
       [] name = "F29" -> Struct(<<Fld(n_a, "elem", List(STR)), Fld(n_b, "elem", List(SELFNEST)), Fld(n_d, "elem", List(NUM))>>)
       [] name = "F30" -> Struct(<<Fld(n_a, "attr", STR), Fld(n_l, "attr", SList(STR)), Fld(<<101>>, "elem", STR), Fld(n_item, "elem", List(STR))>>)
       [] name = "F31" -> Struct(<<Fld(n_k, "attr", STR), Fld(n_text, "text", STR)>>)
+      [] name = "F32" -> F32T
+      [] name = "F33" -> Struct(<<Fld(<<119>>, "elem", F32T)>>)
       [] name = "H01" -> Struct(<<Fld(n_m, "elem", [t |-> "map"])>>)
       [] name = "H07" -> Struct(<<Fld(n_value, "value", List(Opt(CHOICE)))>>)     \* items that may write nothing inside mixed content
       [] OTHER -> [t |-> "unknown"]       \* outside the schema language: the model has no opinion (SerTree = Fail)
@@ -98,6 +102,8 @@ RootBytes(name) ==
       [] name = "F29" -> <<70,50,57>>
       [] name = "F30" -> <<70,51,48>>
       [] name = "F31" -> <<70,51,49>>
+      [] name = "F32" -> <<70,51,50>>
+      [] name = "F33" -> <<70,51,51>>
       [] name = "F27" -> <<70,50,55>>
       [] name = "F28" -> <<70,50,56>>
       [] name = "H01" -> <<72,48,49>>
@@ -133,6 +139,9 @@ ChoiceVals(Pl) == {[u |-> n_One], [u |-> n_Two]} \cup {[v |-> n_text, x |-> S(s)
 ItemVals(Pl) == {O(<<<<<<64>> \o n_k, S(k)>>, <<n_text, S(t)>>>>) : k \in {<<>>, <<60>>}, t \in Pl}
 IsTextItem(x) == "v" \in DOMAIN x /\ x.v = n_text
 NoAdjacentText(xs) == \A i \in 1..(Len(xs) - 1) : ~(IsTextItem(xs[i]) /\ IsTextItem(xs[i + 1]))
+
+F32Vals == {O(<<<<n_a, A(xs)>>, <<n_b, A(ys)>>, <<<<111>>, x>>>>) :
+               xs \in Seqs({S(<<97>>)}, 2), ys \in Seqs({S(<<60>>)}, 2), x \in {None} \cup ItemVals({<<97>>})}
 
 ValuesOf(name, Pl, mode) ==       \* mode "rt": the documented round-trippable domain; "all": everything generated
     CASE name = "F01" -> {O(<<<<<<64>> \o n_one, S(a)>>, <<<<64>> \o n_two, Nm(b)>>>>) : a \in Pl, b \in Nums}
@@ -194,6 +203,8 @@ ValuesOf(name, Pl, mode) ==       \* mode "rt": the documented round-trippable d
       \* outside the schema language (C13 only): Option without skip, nested sequences, unit variants named like markup
       [] name = "H02" -> {O(<<<<<<111>>, x>>, <<<<110>>, A(ys)>>>>) : x \in {None, S(<<60>>)},
                             ys \in Seqs({A(zs) : zs \in Seqs({S(<<97>>), S(<<60>>)}, 2)}, 2)}
+      [] name = "F32" -> F32Vals
+      [] name = "F33" -> {O(<<<<<<119>>, x>>>>) : x \in F32Vals}
       [] name = "H07" ->
             LET It == {None, [u |-> n_One], [v |-> n_text, x |-> S(<<97, 98, 99>>)]} IN
             \* (two text items separated only by absent items would be written as one text: outside what can be told apart)
@@ -206,5 +217,5 @@ ValuesOf(name, Pl, mode) ==       \* mode "rt": the documented round-trippable d
 \* root tags passed to the serializer (to_string_with_root); the default is the type name
 HostileRoots == { <<120, 46, 121>>, <<120, 45, 49>>, <<120, 194, 183>>, <<97, 47>>, <<97, 47, 98>>, <<>>, <<60>>, <<97, 32, 98>>, <<49, 97>>, <<97, 62>>, <<195, 169>>, <<120, 58, 121>>, <<45, 97>>, <<114>> }
 
-RTTypes == {"F01", "F02", "F03", "F04", "F05", "F07", "F08", "F11", "F15", "F16", "F17", "F18", "F19", "F20", "F22", "F23", "F24", "F25", "F26", "F27", "F28", "F29", "F30", "F31"}
+RTTypes == {"F01", "F02", "F03", "F04", "F05", "F07", "F08", "F11", "F15", "F16", "F17", "F18", "F19", "F20", "F22", "F23", "F24", "F25", "F26", "F27", "F28", "F29", "F30", "F31", "F32", "F33"}
 =============================================================================
